@@ -64,6 +64,10 @@ func runC01(p *Prog, r *Report) {
 		}
 	}
 	definitionPackageRule(p, r, "C01.R12")
+	zeroValueTableRule(p, r, "C01.R13")
+	typeArgsKeptRule(p, r, "C01.R14")
+	cloneBeforeExtendRule(p, r, "C01.R15", p.Chains())
+	c08R2(p, r, "C01.R16")
 }
 
 // reservedNames reads the initial lookup set from the map literal in namer.New.
@@ -495,8 +499,10 @@ func keysOf(m map[string]bool) []string {
 }
 
 // c01R2: allocator contract.
-func c01R2(p *Prog, r *Report) {
-	r.Rule("C01.R2", "allocator contract (package namer): Register returns true only after finding the name absent from the lookup set and inserting it; Name and Index return only a name for which Register just returned true; Map returns only names it found absent and inserted", 4)
+func c01R2(p *Prog, r *Report) { allocatorContractRule(p, r, "C01.R2") }
+
+func allocatorContractRule(p *Prog, r *Report, id string) {
+	r.Rule(id, "allocator contract (package namer): Register returns true only after finding the name absent from the lookup set and inserting it; Name and Index return only a name for which Register just returned true; Map returns only names it found absent and inserted", 4)
 	// Register
 	if fi, sf := needFunc(p, r, "namer.(*Namer).Register"); fi != nil {
 		for _, b := range sf.Blocks {
